@@ -90,6 +90,8 @@ type Job struct {
 	Rlen    int      `json:"rlen"`
 	Out     string   `json:"out"` // trace file of this job ("" = the default one)
 	Direct  int      `json:"direct"` // big: blobs injected through the side door instead of uploads
+	Root    string   `json:"root"`   // "bs" | "root" | "" (alternate between histories)
+	Tag     string   `json:"tag"`    // name of the leg in reset lines (default: Leg)
 }
 
 type Plan struct {
@@ -101,6 +103,7 @@ type server struct {
 	side     blobserver.Storage // the storage behind /bs/
 	rootPath string             // discovered blob root path, e.g. /bs-and-maybe-also-index
 	low      map[string]any
+	canSide  bool // blobs can be removed through the side door
 	hubMu    sync.Mutex
 	hubGot   []blob.Ref
 }
@@ -267,34 +270,50 @@ func main() {
 	if err := json.Unmarshal(pb, &plan); err != nil {
 		fatal(err)
 	}
-	dir, err := os.MkdirTemp("", "verif-c18-")
+	base, err := os.MkdirTemp("", "verif-c18-")
 	if err != nil {
 		fatal(err)
 	}
-	srv, err := startServer(*store, *index, dir)
-	if err != nil {
-		os.RemoveAll(dir)
-		fatal(err)
+	// diskpacked.RemoveBlobs deadlocks over a sqlite metaIndex (BeginBatch holds sqlkv's gate of 1 while
+	// delete() -> meta() -> Get waits for it): no side-door removal there; every history gets a new server.
+	canSide := !(*store == "diskpacked" && *index == "sqlite")
+	nsrv := 0
+	var srv *server
+	var cl, clBS *client.Client
+	newServer := func() {
+		nsrv++
+		dir := filepath.Join(base, fmt.Sprintf("s%d", nsrv))
+		if err := os.MkdirAll(dir, 0700); err != nil {
+			fatal(err)
+		}
+		s, err := startServer(*store, *index, dir)
+		if err != nil {
+			os.RemoveAll(base)
+			fatal(err)
+		}
+		s.canSide = canSide
+		srv = s
+		cl, err = client.New(client.OptionServer(srv.url), client.OptionAuthMode(auth.NewBasicAuth("u", "p")), client.OptionNoExternalConfig())
+		if err != nil {
+			fatal(err)
+		}
+		root, err := cl.BlobRoot()
+		if err != nil {
+			fatal(fmt.Errorf("discovery: %v", err))
+		}
+		if u, err := url.Parse(root); err == nil && u.Path != "" {
+			root = u.Path
+		}
+		srv.rootPath = strings.TrimRight(root, "/")
+		clBS, err = client.New(client.OptionServer(srv.url+"/bs"), client.OptionAuthMode(auth.NewBasicAuth("u", "p")), client.OptionNoExternalConfig())
+		if err != nil {
+			fatal(err)
+		}
 	}
+	newServer()
 	if *dumpLow != "" {
 		b, _ := json.MarshalIndent(srv.low, "", " ")
 		os.WriteFile(*dumpLow, b, 0600)
-	}
-	cl, err := client.New(client.OptionServer(srv.url), client.OptionAuthMode(auth.NewBasicAuth("u", "p")), client.OptionNoExternalConfig())
-	if err != nil {
-		fatal(err)
-	}
-	root, err := cl.BlobRoot()
-	if err != nil {
-		fatal(fmt.Errorf("discovery: %v", err))
-	}
-	if u, err := url.Parse(root); err == nil && u.Path != "" {
-		root = u.Path
-	}
-	srv.rootPath = strings.TrimRight(root, "/")
-	clBS, err := client.New(client.OptionServer(srv.url+"/bs"), client.OptionAuthMode(auth.NewBasicAuth("u", "p")), client.OptionNoExternalConfig())
-	if err != nil {
-		fatal(err)
 	}
 	logs := map[string]*gate.Log{}
 	getLog := func(p string) *gate.Log {
@@ -336,6 +355,10 @@ func main() {
 		default:
 			fatal(fmt.Errorf("unknown leg %q", job.Leg))
 		}
+		legName := job.Leg
+		if job.Tag != "" {
+			legName = job.Tag
+		}
 		stride := job.Stride
 		if stride <= 0 {
 			stride = 1
@@ -351,7 +374,13 @@ func main() {
 			for vi, via := range vias {
 				// the blob root alternates between /bs/ and the discovered root
 				useRoot := (hi/stride+vi)%2 == 1
-				r := &runner{srv: srv, u: u, lg: lg, via: via, cfg: cfgName, leg: job.Leg, hi: hi, believed: map[int]bool{}}
+				if job.Root != "" {
+					useRoot = job.Root == "root"
+				}
+				if !canSide && nh > 0 {
+					newServer()
+				}
+				r := &runner{srv: srv, u: u, lg: lg, via: via, cfg: cfgName, leg: legName, hi: hi, believed: map[int]bool{}}
 				if via == "client" {
 					r.cl = clBS
 					r.rootName = "/bs"
@@ -395,7 +424,7 @@ func main() {
 	fmt.Printf("histories=%d events=%d\n", nh, total)
 	// The server is not shut down: closing the index under the still-running sync handler makes perkeep
 	// panic (nil *sql.Tx in sqlkv.CommitBatch), which has nothing to do with the protocol.
-	os.RemoveAll(dir)
+	os.RemoveAll(base)
 	os.Exit(0)
 }
 
